@@ -104,6 +104,19 @@ def run(ctx):
                 if lv and all(T.tag(x) == 'raise' for x in lv):
                     ok = True
                     ob.note('size guard decided semantically: with the decoded size outside the five sizes every path raises')
+                else:
+                    # a function that normalises its text first (white space, 0x prefix) measures the bytes of the
+                    # normalised text: decided on canonical hex text HEX(b), where normalisation is the identity
+                    Eb = S('E', type='bytes')
+                    nb2 = T.len_(Eb)
+                    facts2 = Facts()
+                    for b_ in (128, 160, 192, 224, 256):
+                        facts2 = facts2.add(T.not_(T.eq(T.const(b_), T.mul(T.const(8), nb2)))).add(T.not_(T.eq(T.const(b_ // 8), nb2)))
+                    v2, _ = Evaluator(p, 'ecdsa').call_function('bip39.mnemonic_from_entropy', [T.raw_op('HEX', Eb)], facts=facts2)
+                    lv2 = [x for _, x in leaves(v2, (), set(facts2))]
+                    if lv2 and all(T.tag(x) == 'raise' for x in lv2):
+                        ok = True
+                        ob.note('size guard decided on canonical hex text: with a decoded size outside the five sizes every path raises')
             ob.require(ok, 'a sentence is produced without the entropy size having been checked against {128,160,192,224,256} bits'
                        + (' (the only size guard is computed from the hex text, which bytes.fromhex does not map 1:1 to bytes)'
                           if textual else '') + ': 17 bytes give 12 words with 8 entropy bits dropped, "00 "*16 gives 18 words',
